@@ -2,7 +2,7 @@
 
 class Prop:
     def __init__(self, pid, harness, entries, props_file, quick_n, thorough_n, trusted=None, assumptions=None,
-                 rule='', design_ref='', extra=None, harness_timeout=900):
+                 rule='', design_ref='', extra=None, harness_timeout=900, spec_entries=None, search_n=None):
         self.id = pid
         self.harness = harness
         self.entries = entries
@@ -15,5 +15,7 @@ class Prop:
         self.design_ref = design_ref
         self.extra = extra
         self.harness_timeout = harness_timeout
+        self.spec_entries = spec_entries or []   # entries whose model IS the property's reference spec: a mismatch is a violation
+        self.search_n = search_n                 # harness size used to search for a failing input when something broke
 
 
